@@ -1,12 +1,15 @@
 CONSTANTS
-  Procs = {1, 2, 3}
+  Procs = {1, 2}
   Kinds = {"out"}
   LKinds = {"key"}
   Cap <- MCCap1
-  Mode = "off"
+  Mode = "enforce"
   Lazy = TRUE
-  MaxOps = 3
-  MaxHeld = 1
+  MaxOps = 2
+  MaxHeld = 0
+  OpSet = {"debit"}
+  Atomic = FALSE
+  GtBug = TRUE
 SPECIFICATION Spec
 INVARIANTS TypeOK AcceptedNeverExceedsCap ShadowNeverRejects ShadowRecordsCrossing OffCountsNothing RequiredRejectionLatches
   BestEffortDoesNotLatch LatchedIsExhausted RefsOK PublishOnce PublishedWhenQuiescent
